@@ -106,6 +106,11 @@ func (nd *Node) Receive(ctx context.Context, fn func(p2p.Message[Addr])) error {
 	case d := <-nd.inbox:
 		leave()
 		fn(d.msg)
+		// the message may only be used until fn returns (swarm.go): recycle the buffer the way a real
+		// transport does, so that a layer above that kept a reference to it is found out
+		for i := range d.msg.Payload {
+			d.msg.Payload[i] = 0xA5 ^ byte(i)
+		}
 		nd.mu.Lock()
 		nd.done++
 		nd.cond.Broadcast()
